@@ -208,10 +208,55 @@ func goExec(line string) (out string) {
 		t = t[:len(t)-1]
 		defer func() { currentWrites = nil }()
 	}
+	// optional trailing "rd=<n.n.n>": bx.dec uses the streaming decoder over a
+	// reader that delivers the text in pieces of those sizes (cycling); the
+	// model answers with the one-shot form (C10: the two agree)
+	var reads []int
+	if len(t) > 1 && strings.HasPrefix(t[len(t)-1], "rd=") {
+		reads = parseCapsGo(t[len(t)-1][3:])
+		t = t[:len(t)-1]
+	}
 	switch t[0] {
 	case "bx.enc":
+		if currentWrites != nil {
+			var buf bytes.Buffer
+			w := basex.NewEncoder(encByName(t[1]), &buf)
+			rest := unhex(t[2])
+			for _, n := range currentWrites {
+				if n < 0 {
+					continue
+				}
+				if n > len(rest) {
+					n = len(rest)
+				}
+				if _, err := w.Write(rest[:n]); err != nil {
+					return "err write"
+				}
+				rest = rest[n:]
+			}
+			if len(rest) > 0 {
+				if _, err := w.Write(rest); err != nil {
+					return "err write"
+				}
+			}
+			if err := w.Close(); err != nil {
+				return "err close"
+			}
+			return "ok " + keys.Hex(buf.Bytes())
+		}
 		return "ok " + keys.Hex([]byte(encByName(t[1]).EncodeToString(unhex(t[2]))))
 	case "bx.dec":
+		if reads != nil {
+			dec := basex.NewDecoder(encByName(t[1]), &pieceReader{b: unhex(t[2]), sizes: reads})
+			b, err := readAllCollect(dec, 1+len(unhex(t[2]))%97)
+			if err != nil {
+				if ce, ok := err.(basex.CorruptInputError); ok {
+					return fmt.Sprintf("err corrupt %d", int(ce))
+				}
+				return "err badlen"
+			}
+			return "ok " + keys.Hex(b)
+		}
 		b, err := encByName(t[1]).DecodeString(string(unhex(t[2])))
 		if err != nil {
 			if ce, ok := err.(basex.CorruptInputError); ok {
@@ -542,4 +587,37 @@ func viaStream(pt []byte, mk func(w io.Writer) (io.WriteCloser, error)) ([]byte,
 		return nil, err
 	}
 	return buf.Bytes(), nil
+}
+
+// pieceReader delivers b in pieces of the given sizes (cycling; 0 = an empty
+// read without error), the last piece together with io.EOF when lastEOF.
+type pieceReader struct {
+	b     []byte
+	sizes []int
+	k     int
+}
+
+func (p *pieceReader) Read(q []byte) (int, error) {
+	if len(p.b) == 0 {
+		return 0, io.EOF
+	}
+	n := p.sizes[p.k%len(p.sizes)]
+	p.k++
+	if n < 0 { // deliver everything that is left together with io.EOF
+		n = copy(q, p.b)
+		p.b = p.b[n:]
+		if len(p.b) == 0 {
+			return n, io.EOF
+		}
+		return n, nil
+	}
+	if n > len(p.b) {
+		n = len(p.b)
+	}
+	if n > len(q) {
+		n = len(q)
+	}
+	copy(q, p.b[:n])
+	p.b = p.b[n:]
+	return n, nil
 }
